@@ -270,7 +270,10 @@ class Gen:
             todo.append(rng.choice(kinds + extra) if rng.random() < 0.93 else rng.choice(F_BINARY[:4]))
         rng.shuffle(todo)
         last = None
+        cap = 40 if self.target == "cpp" else 120
         for k in todo:
+            if len(self.nodes) >= cap - 6:
+                break
             if self.avoid and self.target == "cpp" and k == "remainder":
                 r = self.add(["op", k, [self.i(), self.i()]], self.itype)
             else:
@@ -316,7 +319,7 @@ def generate(rng, target, declared, consts, n, prefix="g"):
     out = []
     dk = [k for k in declared if k in KNOWN]
     for j in range(n):
-        size = rng.choice([2, 3, 4, 6, 8, 12, 20]) if rng.random() < 0.9 else rng.choice([30, 45])
+        size = rng.choice([2, 3, 4, 6, 8, 12, 20]) if rng.random() < 0.9 else rng.choice([28, 36] if target == "cpp" else [30, 45])
         g = Gen(rng, target, declared, consts, f"{prefix}{j}", size, must=dk[j % len(dk)] if dk else None,
                 mixed=(rng.random() < 0.2), avoid=True)
         out.append(g.build())
